@@ -421,11 +421,14 @@ func runRemote(t *testing.T, b Behaviour, w *bufio.Writer) {
 		if err == nil {
 			return "ok"
 		}
+		// a refusal by policy (5yz with enhanced code 5.7.z, as for "Refusing to deliver a
+		// quarantined message") - not a failed lookup or connection attempt, which is what an
+		// accepted recipient runs into in this offline scenario
 		var se *exterrors.SMTPError
-		if errors.As(err, &se) && se.Code/100 == 5 {
+		if errors.As(err, &se) && se.Code/100 == 5 && se.EnhancedCode[0] == 5 && se.EnhancedCode[1] == 7 {
 			return "perm"
 		}
-		return "temp"
+		return "fail"
 	}
 	ctx := context.Background()
 	meta := &module.MsgMetadata{ID: fmt.Sprintf("verifr%d", b.ID), OriginalFrom: sender, Quarantine: true}
